@@ -14,23 +14,34 @@
   Two defects of the code:
   (1) EVM.TransferAssetTx had no sign check on the amount (hexutil.Big10 accepts "-60").  REPAIRED in
       /repo by commit 71158df ("fix: EVM.TransferAssetTx rejects a negative transfer amount"); the code
-      before it is commit 2b30546.  `fixed = false` is the model of the code before the repair,
-      `fixed = true` the live model.
+      before it is commit 2b30546.  `fixed = true` is the LIVE model (the only one the correspondence
+      run uses); `fixed = false`, the code before the repair, exists for the refutation theorems.
+        * `transfer_exact`                        FULL, unguarded, live model: 0 ≤ amount ≤ equity, the
+                                                  sender's entry falls by exactly the amount, which is
+                                                  exactly what the receiver gains / the supply loses on a burn
         * `transfer_only_debits_sender`           full theorem for `transferFixed`
         * `transfer_only_debits_sender_partial`   as-is model, under the guard 0 ≤ amount
         * `transfer_only_debits_sender_refuted`   kernel-checked witness on the as-is model (Bob sends
                                                   -60 to Alice: Alice 100 → 40, Bob 100 → 160)
         * `negative_burn_mints_refuted`           as-is: "-7" sent to 0x0 mints 7 for a non-issuer
         * `supply_changes_only_by`                full for the fixed model / as-is under 0 ≤ amount
+                                                  (hypothesis `FreshCreate`: CreateAssetTx has no existence
+                                                  check, see `create_resets_existing`)
   (2) NOT repaired (known finding c12/…/foreign-asset-id): ReplenishAssetTx accepts ANY asset id, and
       IssueAssetTx adds to / overwrites whatever entry sits under its id.
         * `supply_eq_sum_refuted`                 witness: 1 000 000 units of an attacker's own asset
                                                   become 1 000 000 units of the victim asset
-        * `supply_eq_sum_equity_partial`          the sum invariant over ALL block sequences, under the
-                                                  id discipline `IdOK` (a replenish uses an id of its own
-                                                  asset; tx hashes are fresh)
+        * `supply_eq_sum_equity_partial`          the sum invariant over ALL chains of blocks (arbitrary
+                                                  stable state per block) under `Disciplined`: a condition on
+                                                  the id a REPLENISH names + pairwise different create / issue
+                                                  tx hashes (nothing an adversary can break for somebody else)
+        * `no_third_party_debit`                  all tx kinds, unguarded: states exactly where an issue may
+                                                  relabel / overwrite; `_partial` under the discipline: never;
+                                                  `issue_overwrites_entry_refuted` the witness
         * `frozen_immovable`                      under the same discipline (state invariant `IdInv`)
-  Unconditional, both variants: `no_negative_equity`.  Parser: `parse_amount_sign`.
+  `no_negative_equity` (both variants): the guard it rests on is the RLP encoder's refusal of negative
+  big ints (see LemoModel.Assets.putEquity); `rlp_guard_fires_only_on_burn` shows that for EQUITY entries
+  the guard is dead on the live model (non-negativity follows from the operations).  Parser: `parse_amount_sign`.
 -/
 import LemoProofs.Lemmas.AssetsOps
 namespace LemoProofs.C12
@@ -1148,40 +1159,186 @@ theorem sumInv_apply {fixed : Bool} {stable s s' : St} {op : Op} {keys : List (N
         · exact supp_putEquity h2 (fun a i hq => V.supp a i (by rw [he1] at hq; exact hq)) hks
         · exact live_putEquity h2 (live_putSupply h1 V.live) (by rw [ha1]; simp only [if_true]; exact ⟨_, rfl⟩)
 
-/-- the guard over a run: every transaction respects the id discipline in the state it is applied to -/
-def GuardedOps (fixed : Bool) (stable : St) : St → List Op → Prop
-  | _, [] => True
-  | s, op :: ops => IdOK s op ∧ GuardedOps fixed stable (step fixed stable s op) ops
+/-! ### the discipline as a condition on the REPLENISH alone
 
-def GuardedBlocks (fixed : Bool) : St → List (List Op) → Prop
-  | _, [] => True
-  | s, b :: bs => GuardedOps fixed s s b ∧ GuardedBlocks fixed (runOps fixed s s b) bs
+`IdOK` puts freshness conditions on create / issue, and those an adversary could break for somebody else's
+transaction (a replenish under the hash of a pending create / issue).  The condition below constrains only what
+the code fails to check — the id named by a replenish — plus the one fact about hashes nobody can influence:
+the hash of a create / issue tx differs from the hashes of all earlier create / issue txs (`used`). -/
+
+/-- a replenish is disciplined when its id already carries an entry of ITS asset code, or is the code itself;
+    a create / issue only needs a tx hash different from the hashes of the earlier create / issue txs -/
+def Disciplined (s : St) (used : List Nat) : Op → Prop
+  | .create _ h _ _ _ _ _ _ => h ∉ used
+  | .issue _ _ h _ _ _ => h ∉ used
+  | .replenish _ _ code id _ => (∃ a e, s.equity a id = some (code, e)) ∨ id = code
+  | _ => True
+
+/-- the hashes of the create / issue txs seen so far (whether they succeeded or not) -/
+def usedAfter (used : List Nat) : Op → List Nat
+  | .create _ h _ _ _ _ _ _ => h :: used
+  | .issue _ _ h _ _ _ => h :: used
+  | _ => used
+
+/-- every id that carries an entry and every asset code is the hash of an earlier create / issue tx -/
+structure Used (s : St) (used : List Nat) : Prop where
+  ids : ∀ a id c e, s.equity a id = some (c, e) → id ∈ used
+  codes : ∀ x r, s.assets x = some r → x ∈ used
+
+theorem used_mono {s : St} {used : List Nat} (U : Used s used) (op : Op) : Used s (usedAfter used op) := by
+  cases op <;> first | exact U | exact ⟨fun a id c e h => List.mem_cons_of_mem _ (U.ids a id c e h),
+    fun x r h => List.mem_cons_of_mem _ (U.codes x r h)⟩
+
+/-- the adversary-proof discipline implies the freshness conditions of `IdOK` -/
+theorem idOK_of_disciplined {s : St} {used : List Nat} {op : Op} (U : Used s used) (I : IdInv s)
+    (d : Disciplined s used op) : IdOK s op := by
+  cases op with
+  | create sd hsh cat dv rp dc fz big =>
+    refine ⟨fun a => ?_, ?_⟩
+    · cases hq : s.equity a hsh with
+      | none => rfl
+      | some p => obtain ⟨c, e⟩ := p; exact absurd (U.ids a hsh c e hq) d
+    · cases hq : s.assets hsh with
+      | none => rfl
+      | some r => exact absurd (U.codes hsh r hq) d
+  | issue sd rc hsh code m amt =>
+    intro r _ _
+    refine ⟨fun a => ?_, ?_⟩
+    · cases hq : s.equity a hsh with
+      | none => rfl
+      | some p => obtain ⟨c, e⟩ := p; exact absurd (U.ids a hsh c e hq) d
+    · cases hq : s.assets hsh with
+      | none => rfl
+      | some r => exact absurd (U.codes hsh r hq) d
+  | replenish sd rc code id amt =>
+    intro r hl
+    obtain ⟨hr, _⟩ := lookup_some hl
+    rcases d with ⟨a0, e0, h0⟩ | rfl
+    · exact ⟨fun a c e hq => I.idc a a0 id c e code e0 hq h0,
+        fun r' hr' => (I.own a0 id code e0 r' h0 hr').symm⟩
+    · exact ⟨fun a c e hq => I.own a id c e r hq hr, fun _ _ => rfl⟩
+  | modify sd code fz => trivial
+  | transfer sd rc id ck amt => trivial
+
+theorem used_putEquity {s s' : St} {used : List Nat} {a id : Nat} {e : Nat × Int}
+    (h : putEquity s a id e = .ok s') (U : Used s used) (hid : id ∈ used) : Used s' used := by
+  obtain ⟨_, ha, _, he⟩ := putEquity_ok h
+  constructor
+  · intro x y c v hq
+    rw [he] at hq
+    by_cases k : x = a ∧ y = id
+    · rw [k.2]; exact hid
+    · simp only [k, if_false] at hq; exact U.ids x y c v hq
+  · intro x r hr; rw [ha] at hr; exact U.codes x r hr
+
+theorem used_sameEquity {s s' : St} {used : List Nat} (he : s'.equity = s.equity)
+    (ha : ∀ x r', s'.assets x = some r' → x ∈ used) (U : Used s used) : Used s' used :=
+  ⟨fun a id c e h => U.ids a id c e (by rw [he] at h; exact h), ha⟩
+
+theorem used_putSupply {s s' : St} {used : List Nat} {code : Nat} {v : Int}
+    (h : putSupply s code v = .ok s') (U : Used s used) : Used s' used := by
+  obtain ⟨r0, hr0, _, he, _, ha⟩ := putSupply_ok h
+  refine used_sameEquity he ?_ U
+  intro x r' hr'
+  rw [ha] at hr'
+  by_cases e : x = code
+  · subst e; exact U.codes x r0 hr0
+  · simp only [e, if_false] at hr'; exact U.codes x r' hr'
+
+theorem used_apply {fixed : Bool} {stable s s' : St} {op : Op} {used : List Nat}
+    (h : apply fixed stable s op = .ok s') (U : Used s used) (d : Disciplined s used op) :
+    Used s' (usedAfter used op) := by
+  cases op with
+  | create sd hsh cat dv rp dc fz big =>
+    obtain ⟨he, _, ha⟩ := create_ok h
+    constructor
+    · intro a id c e hq; rw [he] at hq; exact List.mem_cons_of_mem _ (U.ids a id c e hq)
+    · intro x r' hr'
+      rw [ha] at hr'
+      by_cases e : x = hsh
+      · subst e; exact List.mem_cons_self
+      · simp only [e, if_false] at hr'; exact List.mem_cons_of_mem _ (U.codes x r' hr')
+  | issue sd rc hsh code m amt =>
+    obtain ⟨a, r, s1, s2, tid, newEq, _, _, hl, _, h1, h2, h3, hcat⟩ := issue_ok h
+    subst h3
+    have U0 : Used s (hsh :: used) := used_mono U (.issue sd rc hsh code m amt)
+    have U1 := used_putSupply h1 U0
+    have htid : tid ∈ hsh :: used := by
+      rcases hcat with ⟨_, ht, _⟩ | ⟨_, ht, _⟩
+      · subst ht; exact List.mem_cons_of_mem _ (U.codes tid r (lookup_some hl).1)
+      · subst ht; exact List.mem_cons_self
+    have U2 : Used s2 (hsh :: used) := used_putEquity h2 U1 htid
+    exact ⟨U2.ids, U2.codes⟩
+  | replenish sd rc code id amt =>
+    obtain ⟨a, r, s1, _, _, hl, _, _, _, _, h1, h2⟩ := replenish_ok h
+    have hid : id ∈ used := by
+      rcases d with ⟨a0, e0, h0⟩ | rfl
+      · exact U.ids a0 id code e0 h0
+      · exact U.codes id r (lookup_some hl).1
+    exact used_putSupply h2 (used_putEquity h1 U hid)
+  | modify sd code fz =>
+    obtain ⟨r, hl, he, _, hcase⟩ := modify_ok h
+    rcases hcase with rfl | ⟨b, _, ha⟩
+    · exact U
+    · refine used_sameEquity he ?_ U
+      intro x r' hr'
+      rw [ha] at hr'
+      by_cases e : x = code
+      · subst e; exact U.codes x r (lookup_some hl).1
+      · simp only [e, if_false] at hr'; exact U.codes x r' hr'
+  | transfer sd rc id ck amt =>
+    obtain ⟨am, c0, e0, r0, _, hse, _, _, hr0, _, _, hcase⟩ := transfer_ok h
+    rcases hcase with rfl | hm
+    · exact U
+    · obtain ⟨s1, c', e', h1, _, h2⟩ := moveEquity_ok hm
+      have hid : id ∈ used := U.ids sd id c0 e0 hse
+      rcases h1 with ⟨_, h1⟩ | ⟨_, h1⟩
+      · exact used_putEquity h2 (used_putEquity h1 U hid) hid
+      · exact used_putEquity h2 (used_putSupply h1 U) hid
+
+/-- the guard over a run -/
+def DisciplinedOps (fixed : Bool) (stable : St) : St → List Nat → List Op → Prop
+  | _, _, [] => True
+  | s, u, op :: ops =>
+    Disciplined s u op ∧ DisciplinedOps fixed stable (step fixed stable s op) (usedAfter u op) ops
+
+def usedAfterOps (u : List Nat) (ops : List Op) : List Nat := ops.foldl usedAfter u
+
+/-- the guard over a chain of blocks, each with its own (arbitrary) stable state -/
+def DisciplinedChain (fixed : Bool) : St → List Nat → List (St × List Op) → Prop
+  | _, _, [] => True
+  | s, u, (stable, b) :: bs =>
+    DisciplinedOps fixed stable s u b ∧ DisciplinedChain fixed (runOps fixed stable s b) (usedAfterOps u b) bs
 
 theorem sumInv_runOps (fixed : Bool) (stable : St) (keys : List (Nat × Nat)) (hn : keys.Nodup) :
-    ∀ (ops : List Op) (s : St), SumInv s keys → GuardedOps fixed stable s ops →
-      (∀ op ∈ ops, ∀ k ∈ touched op, k ∈ keys) → SumInv (runOps fixed stable s ops) keys := by
+    ∀ (ops : List Op) (s : St) (u : List Nat), SumInv s keys → Used s u → DisciplinedOps fixed stable s u ops →
+      (∀ op ∈ ops, ∀ k ∈ touched op, k ∈ keys) →
+      SumInv (runOps fixed stable s ops) keys ∧ Used (runOps fixed stable s ops) (usedAfterOps u ops) := by
   intro ops
   induction ops with
-  | nil => intro s V _ _; exact V
+  | nil => intro s u V U _ _; exact ⟨V, U⟩
   | cons op ops ih =>
-    intro s V g ht
-    apply ih _ _ g.2 (fun op' h' => ht op' (List.mem_cons_of_mem _ h'))
-    unfold step
-    split
-    · rename_i s' h
-      exact sumInv_apply hn h V g.1 (ht op List.mem_cons_self)
-    · exact V
+    intro s u V U g ht
+    have hstep : SumInv (step fixed stable s op) keys ∧ Used (step fixed stable s op) (usedAfter u op) := by
+      unfold step
+      split
+      · rename_i s' h
+        exact ⟨sumInv_apply hn h V (idOK_of_disciplined U V.ids g.1) (ht op List.mem_cons_self), used_apply h U g.1⟩
+      · exact ⟨V, used_mono U op⟩
+    exact ih _ _ hstep.1 hstep.2 g.2 (fun op' h' => ht op' (List.mem_cons_of_mem _ h'))
 
-theorem sumInv_runBlocks (fixed : Bool) (keys : List (Nat × Nat)) (hn : keys.Nodup) :
-    ∀ (blocks : List (List Op)) (s : St), SumInv s keys → GuardedBlocks fixed s blocks →
-      (∀ b ∈ blocks, ∀ op ∈ b, ∀ k ∈ touched op, k ∈ keys) → SumInv (runBlocks fixed s blocks) keys := by
-  intro blocks
-  induction blocks with
-  | nil => intro s V _ _; exact V
+theorem sumInv_runChain (fixed : Bool) (keys : List (Nat × Nat)) (hn : keys.Nodup) :
+    ∀ (chain : List (St × List Op)) (s : St) (u : List Nat), SumInv s keys → Used s u →
+      DisciplinedChain fixed s u chain →
+      (∀ b ∈ chain, ∀ op ∈ b.2, ∀ k ∈ touched op, k ∈ keys) → SumInv (runChain fixed s chain) keys := by
+  intro chain
+  induction chain with
+  | nil => intro s u V _ _ _; exact V
   | cons b bs ih =>
-    intro s V g ht
-    exact ih _ (sumInv_runOps fixed s keys hn b s V g.1 (ht b List.mem_cons_self)) g.2
-      (fun b' h' => ht b' (List.mem_cons_of_mem _ h'))
+    intro s u V U g ht
+    obtain ⟨stable, ops⟩ := b
+    have hb := sumInv_runOps fixed stable keys hn ops s u V U g.1 (ht (stable, ops) List.mem_cons_self)
+    exact ih _ _ hb.1 hb.2 g.2 (fun b' h' => ht b' (List.mem_cons_of_mem _ h'))
 
 theorem sumInv_empty (keys : List (Nat × Nat)) : SumInv St.empty keys := by
   refine ⟨?_, ?_, idInv_empty, ?_⟩
@@ -1189,20 +1346,55 @@ theorem sumInv_empty (keys : List (Nat × Nat)) : SumInv St.empty keys := by
   · intro a id h; simp [St.empty] at h
   · intro a id c e h; simp [St.empty] at h
 
-/-- `supply_eq_sum_equity` (partial: under the id discipline; either variant of the transfer, any amounts):
-    after ANY sequence of blocks from the empty state, for every divisible asset the recorded total supply
-    equals the sum, over any duplicate-free key list containing every (holder, id) the transactions may write,
-    of the entries carrying its code — and there is no entry outside that list. -/
-theorem supply_eq_sum_equity_partial (fixed : Bool) (blocks : List (List Op)) (keys : List (Nat × Nat))
-    (hn : keys.Nodup) (ht : ∀ b ∈ blocks, ∀ op ∈ b, ∀ k ∈ touched op, k ∈ keys)
-    (hg : GuardedBlocks fixed St.empty blocks) :
-    (∀ x r, (runBlocks fixed St.empty blocks).assets x = some r → r.divisible = true →
-        r.supply = sumCode (runBlocks fixed St.empty blocks) x keys) ∧
-    (∀ a id, (runBlocks fixed St.empty blocks).equity a id ≠ none → (a, id) ∈ keys) := by
-  have V := sumInv_runBlocks fixed keys hn blocks St.empty (sumInv_empty keys) hg ht
+theorem used_empty : Used St.empty [] :=
+  ⟨fun a id c e h => by simp [St.empty] at h, fun x r h => by simp [St.empty] at h⟩
+
+/-- `supply_eq_sum_equity` (partial: under the discipline `Disciplined`; either variant of the transfer, any
+    amounts, every block executed against an ARBITRARY stable state): after ANY chain of blocks from the empty
+    state, for every divisible asset the recorded total supply equals the sum, over any duplicate-free key list
+    containing every (holder, id) the transactions may write, of the entries carrying its code — and there is no
+    entry outside that list.  The guard constrains only the id a REPLENISH names (what the code does not check:
+    finding c12/…/foreign-asset-id) and asks the create / issue tx hashes to be pairwise different. -/
+theorem supply_eq_sum_equity_partial (fixed : Bool) (chain : List (St × List Op)) (keys : List (Nat × Nat))
+    (hn : keys.Nodup) (ht : ∀ b ∈ chain, ∀ op ∈ b.2, ∀ k ∈ touched op, k ∈ keys)
+    (hg : DisciplinedChain fixed St.empty [] chain) :
+    (∀ x r, (runChain fixed St.empty chain).assets x = some r → r.divisible = true →
+        r.supply = sumCode (runChain fixed St.empty chain) x keys) ∧
+    (∀ a id, (runChain fixed St.empty chain).equity a id ≠ none → (a, id) ∈ keys) := by
+  have V := sumInv_runChain fixed keys hn chain St.empty [] (sumInv_empty keys) used_empty hg ht
   refine ⟨?_, V.supp⟩
   intro x r hr hd
   simpa using V.sum x r hr hd
+
+/-- blocks that are stable before the next one is built (what `runBlocks` and the harness' default do), as a chain -/
+def withStable (fixed : Bool) : St → List (List Op) → List (St × List Op)
+  | _, [] => []
+  | s, b :: bs => (s, b) :: withStable fixed (runOps fixed s s b) bs
+
+theorem runChain_withStable (fixed : Bool) : ∀ (blocks : List (List Op)) (s : St),
+    runChain fixed s (withStable fixed s blocks) = runBlocks fixed s blocks := by
+  intro blocks
+  induction blocks with
+  | nil => intro s; rfl
+  | cons b bs ih => intro s; simp only [withStable, runChain, runBlocks]; exact ih _
+
+/-- a successful box is the same as running its sub-transactions one by one (each of them succeeded); a failed
+    box leaves the state alone: a chain with boxes reaches the same states as the chain with the successful boxes
+    flattened and the failed ones removed, so every run-level theorem covers boxes -/
+theorem applyBox_ok (fixed : Bool) (stable : St) : ∀ (ops : List Op) (s s' : St),
+    applyBox fixed stable s ops = .ok s' → s' = runOps fixed stable s ops := by
+  intro ops
+  induction ops with
+  | nil => intro s s' h; simp only [applyBox] at h; injection h with h; exact h.symm
+  | cons op ops ih =>
+    intro s s' h
+    simp only [applyBox] at h
+    split at h
+    · rename_i s1 h1
+      have : step fixed stable s op = s1 := by unfold step; rw [h1]
+      simp only [runOps, this]
+      exact ih s1 s' h
+    · cases h
 
 /-- the foreign-asset-id witness: account 1 creates token 1 (victim asset), account 4 creates token 7 and
     replenishes 1 000 000 units of ITS asset 7 to itself under the id of asset 1; then the issuer of asset 1
@@ -1224,11 +1416,10 @@ theorem supply_eq_sum_refuted :
     ((runBlocks true St.empty foreignWitness).assets 7).map (·.supply) = some 1000000 ∧
     sumCode (runBlocks true St.empty foreignWitness) 7 [(4, 1)] = 0 := by decide
 
-/-- non-vacuity of the guard: the negative-transfer witness blocks respect the id discipline -/
-example : GuardedBlocks false St.empty witnessBlocks := by
-  simp [GuardedBlocks, GuardedOps, witnessBlocks, IdOK, St.empty, runOps, step, apply, create, issue, lookup,
-    verifyCode, putSupply, putEquity, setMeta, bind, Except.bind, pure, Except.pure]
-
+/-- non-vacuity of the guard: the negative-transfer witness blocks (create, two issues, a transfer; all of them
+    succeed on the as-is model) are disciplined -/
+example : DisciplinedChain false St.empty [] (withStable false St.empty witnessBlocks) := by
+  simp [DisciplinedChain, DisciplinedOps, Disciplined, usedAfter, usedAfterOps, withStable, witnessBlocks]
 
 /-- without the id discipline even `frozen_immovable` fails (same unrepaired defect): account 4 parks 50 units of
     ITS asset 7 under the id of asset 1 in account 5 and freezes asset 7; a holder of asset 1 then sends 10 units
@@ -1244,6 +1435,387 @@ theorem frozen_moved_refuted :
     (runBlocks true St.empty (frozenWitness.take 3)).equity 5 1 = some (7, 50) ∧
     ((runBlocks true St.empty frozenWitness).assets 7).map (·.frozen) = some true ∧
     (runBlocks true St.empty frozenWitness).equity 5 1 = some (7, 60) := by decide
+
+
+/-! ## what an accepted transfer does, exactly -/
+
+
+/-- `transfer_exact` — FULL, unguarded, live model: what an accepted TransferAssetTx did.  Either nothing
+    (zero amount to a code-less receiver, or the receiver's code failed and the state was reverted), or there is
+    an `amount` with 0 ≤ amount ≤ the sender's equity (the tx amount for a divisible asset, the whole equity
+    otherwise) such that nothing but the (sender, id) and (receiver, id) entries and — on a burn — the asset's
+    recorded supply changes, and
+      * to self: the sender's entry is unchanged;
+      * to another account: the sender's entry falls by exactly `amount` and the receiver's entry (created with
+        the sender's asset code if absent) rises by exactly `amount`;
+      * to the burn address 0x0: the sender's entry falls by exactly `amount` and the recorded supply falls by
+        `amount` (divisible) / by 1 (non-divisible), nothing is credited. -/
+theorem transfer_exact (stable s s' : St) (sd rc id ck : Nat) (amt : Option Int)
+    (h : transferFixed stable s sd rc id ck amt = .ok s') :
+    s' = s ∨
+    ∃ c e r amount, s.equity sd id = some (c, e) ∧ s.assets c = some r ∧ 0 ≤ amount ∧ amount ≤ e ∧
+      (r.divisible = true → amt = some amount) ∧ (r.divisible = false → amount = e) ∧
+      s'.idMeta = s.idMeta ∧
+      (∀ a i, ¬ (a = sd ∧ i = id) → ¬ (a = rc ∧ i = id) → s'.equity a i = s.equity a i) ∧
+      ((rc ≠ 0 ∧ rc = sd ∧ s'.assets = s.assets ∧ s'.equity sd id = some (c, e)) ∨
+       (rc ≠ 0 ∧ rc ≠ sd ∧ s'.assets = s.assets ∧ s'.equity sd id = some (c, e - amount) ∧
+          s'.equity rc id = some (match s.equity rc id with
+            | none => (c, amount)
+            | some (c2, e2) => (c2, e2 + amount))) ∨
+       (rc = 0 ∧ s'.equity sd id = some (c, e - amount) ∧
+          s'.assets = fun x => if x = c then
+            some { r with supply := if r.divisible then r.supply - amount else r.supply - 1 } else s.assets x)) := by
+  obtain ⟨am, c, e, r, hamt, hse, hpos, hfix, hr, _, hle, hcase⟩ := transfer_ok h
+  have hnn : 0 ≤ am := hfix rfl
+  rcases hcase with rfl | hm
+  · exact Or.inl rfl
+  · right
+    refine ⟨c, e, r, (if r.divisible = true then am else e), hse, hr, ?_, ?_, ?_, ?_, ?_⟩
+    · split <;> omega
+    · split
+      · rename_i hd; exact hle hd
+      · omega
+    · intro hd; simp only [hd, if_true]; exact hamt
+    · intro hd; simp [hd]
+    · generalize (if r.divisible = true then am else e) = amount at hm
+      obtain ⟨s1, c', e', h1, hs1, h2⟩ := moveEquity_ok hm
+      obtain ⟨_, ha2, hm2, he2⟩ := putEquity_ok h2
+      rcases h1 with ⟨hrc, h1⟩ | ⟨hrc, h1⟩
+      · obtain ⟨_, ha1, hm1, he1⟩ := putEquity_ok h1
+        refine ⟨by rw [hm2, hm1], ?_, ?_⟩
+        · intro a i n1 n2
+          rw [he2]; simp only [n1, if_false]
+          rw [he1]; simp only [n2, if_false]
+        · by_cases k : rc = sd
+          · left
+            subst k
+            rw [he1] at hs1
+            simp only [and_self, if_true] at hs1
+            unfold creditEntry at hs1
+            rw [hse] at hs1
+            simp only at hs1
+            injection hs1 with hs1; injection hs1 with hc he'
+            subst hc; subst he'
+            refine ⟨hrc, rfl, by rw [ha2, ha1], ?_⟩
+            rw [he2]; simp only [and_self, if_true]
+            congr 2; omega
+          · right; left
+            have n : ¬ sd = rc := fun x => k x.symm
+            rw [he1] at hs1
+            simp [n] at hs1
+            rw [hse] at hs1
+            injection hs1 with hs1; injection hs1 with hc he'
+            subst hc; subst he'
+            refine ⟨hrc, k, by rw [ha2, ha1], ?_, ?_⟩
+            · rw [he2]; simp only [and_self, if_true]
+            · rw [he2]; simp [k]
+              rw [he1]; simp
+              unfold creditEntry; rfl
+      · obtain ⟨r1, hr1, _, he1, hm1, ha1⟩ := putSupply_ok h1
+        rw [hr] at hr1; injection hr1 with hr1; subst hr1
+        refine ⟨by rw [hm2, hm1], ?_, ?_⟩
+        · intro a i n1 _
+          rw [he2]; simp only [n1, if_false]; rw [he1]
+        · right; right
+          rw [he1, hse] at hs1
+          injection hs1 with hs1; injection hs1 with hc he'
+          subst hc; subst he'
+          have hsd : s'.equity sd id = some (c, e - amount) := by
+            rw [he2]; simp only [and_self, if_true]
+          exact ⟨hrc, hsd, by rw [ha2, ha1]⟩
+
+
+/-! ## the RLP guard -/
+
+
+theorem bind_err {α β : Type} {x : Except Err α} {f : α → Except Err β} {e : Err}
+    (h : (x >>= f) = .error e) : x = .error e ∨ ∃ a, x = .ok a ∧ f a = .error e := by
+  cases x with
+  | error e' => left; simpa [bind, Except.bind] using h
+  | ok a => right; exact ⟨a, rfl, by simpa [bind, Except.bind] using h⟩
+
+theorem putEquity_of_nonneg (s : St) (a id : Nat) (e : Nat × Int) (h : 0 ≤ e.2) :
+    ∃ s', putEquity s a id e = .ok s' := by
+  unfold putEquity; rw [if_neg (by omega)]; exact ⟨_, rfl⟩
+
+theorem putSupply_of (s : St) (code : Nat) (v : Int) (r : AssetRec) (hr : s.assets code = some r) (hv : 0 ≤ v) :
+    ∃ s', putSupply s code v = .ok s' := by
+  unfold putSupply; rw [hr]; simp only; rw [if_neg (by omega)]; exact ⟨_, rfl⟩
+
+/-- `rlp_guard_fires_only_on_burn` — the non-negativity of EQUITY entries is not an artefact of the guard written
+    into `putEquity`: on the live model, from a state without negative values, the RLP refusal can only come from
+    the SUPPLY write of a transfer to the burn address 0x0 (a burn larger than the recorded supply).  Every equity
+    write of every accepted-so-far transaction is non-negative by the operations' own checks
+    (amount > 0 on issue / replenish, 0 ≤ amount ≤ equity on transfer). -/
+theorem rlp_guard_fires_only_on_burn (stable s : St) (op : Op) (N : NonNeg s)
+    (h : apply true stable s op = .error .rlpNegative) :
+    ∃ sd id ck amt, op = .transfer sd 0 id ck amt := by
+  cases op with
+  | create sd hsh cat dv rp dc fz big =>
+    simp only [apply] at h
+    unfold create at h
+    split at h; · cases h
+    split at h; · cases h
+    split at h; · cases h
+    split at h; · cases h
+    split at h; · cases h
+    cases h
+  | modify sd code fz =>
+    simp only [apply] at h
+    unfold LemoModel.Assets.modify at h
+    split at h; · cases h
+    split at h; · cases h
+    split at h; · cases h
+    split at h <;> cases h
+  | issue sd rc hsh code m amt =>
+    exfalso
+    simp only [apply] at h
+    unfold issue at h
+    split at h; · cases h
+    rename_i a
+    split at h; · cases h
+    split at h; · cases h
+    split at h; · cases h
+    rename_i hpos
+    split at h; · cases h
+    rename_i r hl
+    obtain ⟨hr, _⟩ := lookup_some hl
+    split at h; · cases h
+    have hv : 0 ≤ (if r.divisible = true then r.supply + a else r.supply + 1) := by
+      have := N.2 code r hr
+      split <;> omega
+    obtain ⟨s1, hs1⟩ := putSupply_of s code _ r hr hv
+    split at h
+    · cases hq : s.equity rc code with
+      | none =>
+        rw [hq] at h; simp only at h
+        rcases bind_err h with h | ⟨s1', _, h⟩
+        · rw [hs1] at h; cases h
+        · obtain ⟨s2, hs2⟩ := putEquity_of_nonneg s1' rc code (code, a) (by simp only; omega)
+          rcases bind_err h with h | ⟨_, _, h⟩
+          · rw [hs2] at h; cases h
+          · cases h
+      | some p =>
+        obtain ⟨c0, e0⟩ := p
+        have := N.1 rc code c0 e0 hq
+        rw [hq] at h; simp only at h
+        rcases bind_err h with h | ⟨s1', _, h⟩
+        · rw [hs1] at h; cases h
+        · obtain ⟨s2, hs2⟩ := putEquity_of_nonneg s1' rc code (code, a + e0) (by simp only; omega)
+          rcases bind_err h with h | ⟨_, _, h⟩
+          · rw [hs2] at h; cases h
+          · cases h
+    · split at h
+      · rcases bind_err h with h | ⟨s1', _, h⟩
+        · rw [hs1] at h; cases h
+        · obtain ⟨s2, hs2⟩ := putEquity_of_nonneg s1' rc hsh (code, a) (by simp only; omega)
+          rcases bind_err h with h | ⟨_, _, h⟩
+          · rw [hs2] at h; cases h
+          · cases h
+      · cases h
+  | replenish sd rc code id amt =>
+    exfalso
+    simp only [apply] at h
+    unfold replenish at h
+    split at h; · cases h
+    rename_i a
+    split at h; · cases h
+    split at h; · cases h
+    rename_i hpos
+    split at h; · cases h
+    rename_i r hl
+    obtain ⟨hr, _⟩ := lookup_some hl
+    split at h; · cases h
+    split at h; · cases h
+    split at h; · cases h
+    split at h; · cases h
+    have hold : 0 ≤ (oldEntry s rc id code).2 := by
+      unfold oldEntry
+      split
+      · simp
+      · rename_i p hq; obtain ⟨c0, e0⟩ := p; exact N.1 rc id c0 e0 hq
+    obtain ⟨s1, hs1⟩ := putEquity_of_nonneg s rc id ((oldEntry s rc id code).1, (oldEntry s rc id code).2 + a)
+      (by simp only; omega)
+    rcases bind_err h with h | ⟨s1', h1', h⟩
+    · rw [hs1] at h; cases h
+    · obtain ⟨_, ha1, _, _⟩ := putEquity_ok h1'
+      obtain ⟨s2, hs2⟩ := putSupply_of s1' code (r.supply + a) r (by rw [ha1]; exact hr)
+        (by have := N.2 code r hr; omega)
+      rw [hs2] at h; cases h
+  | transfer sd rc id ck amt =>
+    by_cases hrc : rc = 0
+    · subst hrc; exact ⟨sd, id, ck, amt, rfl⟩
+    · exfalso
+      simp only [apply] at h
+      unfold transfer at h
+      split at h; · cases h
+      rename_i a
+      split at h; · cases h
+      split at h; · cases h
+      rename_i c e hse
+      split at h; · cases h
+      rename_i hpos
+      split at h; · cases h
+      rename_i hfix
+      split at h; · cases h
+      split at h; · cases h
+      rename_i r hr
+      split at h; · cases h
+      split at h; · cases h
+      rename_i hins
+      split at h; · cases h
+      have hnn : 0 ≤ a := by
+        by_cases hneg : a < 0
+        · exact absurd ⟨rfl, hneg⟩ hfix
+        · omega
+      have hle : r.divisible = true → a ≤ e := by
+        intro hd
+        by_cases hlt : e < a
+        · exact absurd ⟨hlt, hd⟩ hins
+        · omega
+      generalize hamount : (if r.divisible = true then a else e) = amount at h
+      have h0 : 0 ≤ amount := by rw [← hamount]; split <;> omega
+      have h1 : amount ≤ e := by
+        rw [← hamount]; split
+        · rename_i hd; exact hle hd
+        · omega
+      -- the move itself cannot fail
+      have hmove : ∃ s', moveEquity s sd rc id c r amount = .ok s' := by
+        unfold moveEquity credit
+        rw [if_pos hrc]
+        have hce : 0 ≤ (creditEntry s rc id c amount).2 := by
+          unfold creditEntry
+          split
+          · exact h0
+          · rename_i c2 e2 hq; have := N.1 rc id c2 e2 hq; simp only; omega
+        obtain ⟨s1, hs1⟩ := putEquity_of_nonneg s rc id (creditEntry s rc id c amount) hce
+        rw [hs1]
+        simp only [bind, Except.bind]
+        obtain ⟨_, _, _, he1⟩ := putEquity_ok hs1
+        unfold debit
+        rw [he1]
+        by_cases k : sd = rc
+        · subst k
+          simp only [and_self, if_true]
+          have : creditEntry s sd id c amount = (c, e + amount) := by unfold creditEntry; rw [hse]
+          rw [this]
+          exact putEquity_of_nonneg _ sd id (c, e + amount - amount) (by simp only; omega)
+        · simp [k, hse]
+          exact putEquity_of_nonneg _ sd id (c, e - amount) (by simp only; omega)
+      obtain ⟨s2, hs2⟩ := hmove
+      rw [hs2] at h
+      simp only at h
+      split at h <;> cases h
+
+
+/-! ## nobody but the sender of a transfer is debited — all transaction kinds -/
+
+
+/-- the op is an issue to account `a` that writes the entry under id `i` (the asset code for a token, the tx hash
+    otherwise) -/
+def IssueWrites (op : Op) (a i : Nat) : Prop :=
+  ∃ sd h code m amt, op = .issue sd a h code m amt ∧ (i = code ∨ i = h)
+
+/-- `no_third_party_debit` — live model, unguarded, ALL transaction kinds: an existing entry keeps its asset code
+    and does not decrease, unless (a) its owner sent a transfer of that id, or (b) an issue to its owner wrote the
+    id it sits under.  (b) is exactly where IssueAssetTx relabels (token: code := the issued code, amount added) or
+    overwrites (category 2/3: entry := the issued amount) — reachable only through an entry parked under a foreign
+    id: the unrepaired finding c12/…/foreign-asset-id, see `no_third_party_debit_partial` and
+    `issue_overwrites_entry_refuted`. -/
+theorem no_third_party_debit (stable s s' : St) (op : Op) (h : apply true stable s op = .ok s')
+    (a i c : Nat) (e : Int) (hai : s.equity a i = some (c, e)) :
+    (∃ e', s'.equity a i = some (c, e') ∧ e ≤ e') ∨
+    (∃ rc ck amt, op = .transfer a rc i ck amt) ∨
+    IssueWrites op a i := by
+  cases op with
+  | create sd hsh cat dv rp dc fz big =>
+    obtain ⟨he, _, _⟩ := create_ok h
+    exact Or.inl ⟨e, by rw [he]; exact hai, by omega⟩
+  | issue sd rc hsh code m amt =>
+    obtain ⟨am, r, s1, s2, tid, newEq, _, _, _, _, h1, h2, h3, hcat⟩ := issue_ok h
+    subst h3
+    obtain ⟨_, _, _, he2⟩ := putEquity_ok h2
+    obtain ⟨_, _, _, he1, _, _⟩ := putSupply_ok h1
+    by_cases k : a = rc ∧ i = tid
+    · right; right
+      obtain ⟨rfl, rfl⟩ := k
+      refine ⟨sd, hsh, code, m, amt, rfl, ?_⟩
+      rcases hcat with ⟨_, ht, _⟩ | ⟨_, ht, _⟩
+      · exact Or.inl ht
+      · exact Or.inr ht
+    · left
+      refine ⟨e, ?_, by omega⟩
+      rw [setMeta_equity, he2]; simp only [k, if_false]; rw [he1]; exact hai
+  | replenish sd rc code id amt =>
+    obtain ⟨am, r, s1, _, hpos, _, _, _, _, hold, h1, h2⟩ := replenish_ok h
+    obtain ⟨_, _, _, he1⟩ := putEquity_ok h1
+    obtain ⟨_, _, _, he2, _, _⟩ := putSupply_ok h2
+    left
+    rw [he2, he1]
+    by_cases k : a = rc ∧ i = id
+    · obtain ⟨rfl, rfl⟩ := k
+      simp only [and_self, if_true]
+      unfold oldEntry at hold ⊢
+      rw [hai] at hold ⊢
+      simp only at hold ⊢
+      subst hold
+      exact ⟨_, rfl, by omega⟩
+    · simp only [k, if_false]; exact ⟨e, hai, by omega⟩
+  | modify sd code fz =>
+    obtain ⟨_, _, he, _, _⟩ := modify_ok h
+    exact Or.inl ⟨e, by rw [he]; exact hai, by omega⟩
+  | transfer sd rc id ck amt =>
+    by_cases k : a = sd ∧ i = id
+    · obtain ⟨rfl, rfl⟩ := k
+      exact Or.inr (Or.inl ⟨rc, ck, amt, rfl⟩)
+    · left
+      exact transfer_only_debits_sender stable s s' sd rc id ck amt h a i c e hai
+        (fun x => k (by cases x; exact ⟨rfl, rfl⟩))
+
+/-- under the id discipline case (b) never debits: a token issue finds an entry of ITS code and adds to it, a
+    category-2/3 issue finds no entry at all — so nobody but the sender of a transfer is ever debited -/
+theorem no_third_party_debit_partial (stable s s' : St) (op : Op) (h : apply true stable s op = .ok s')
+    (I : IdInv s) (g : IdOK s op)
+    (a i c : Nat) (e : Int) (hai : s.equity a i = some (c, e)) :
+    (∃ e', s'.equity a i = some (c, e') ∧ e ≤ e') ∨ (∃ rc ck amt, op = .transfer a rc i ck amt) := by
+  rcases no_third_party_debit stable s s' op h a i c e hai with h1 | h1 | ⟨sd, hsh, code, m, amt, rfl, hi⟩
+  · exact Or.inl h1
+  · exact Or.inr h1
+  · left
+    obtain ⟨am, r, s1, s2, tid, newEq, _, hpos, hl, _, h1, h2, h3, hcat⟩ := issue_ok h
+    subst h3
+    obtain ⟨hr, _⟩ := lookup_some hl
+    obtain ⟨_, _, _, he2⟩ := putEquity_ok h2
+    obtain ⟨_, _, _, he1, _, _⟩ := putSupply_ok h1
+    rw [setMeta_equity, he2, he1]
+    rcases hcat with ⟨_, ht, hne⟩ | ⟨hc, ht, _⟩
+    · subst ht
+      by_cases k : i = tid
+      · subst k
+        have : c = i := I.own a i c e r hai hr
+        subst this
+        simp only [and_self, if_true]
+        rw [hai] at hne; simp only at hne; subst hne
+        exact ⟨_, rfl, by omega⟩
+      · simp [k]; exact ⟨e, hai, by omega⟩
+    · subst ht
+      by_cases k : i = tid
+      · subst k; rw [(g r hl hc).1 a] at hai; cases hai
+      · simp [k]; exact ⟨e, hai, by omega⟩
+
+/-- account 2 creates the divisible category-3 asset 3, replenishes 30 units to account 5 under the id 35, which is
+    the hash of an issue tx it has already signed; that issue (8 units to account 5) then OVERWRITES the entry -/
+def overwriteWitness : List (List Op) :=
+  [[.create 2 3 3 true true 2 false false],
+   [.replenish 2 5 3 35 (some 30)],
+   [.issue 2 5 35 3 0 (some 8)]]
+
+/-- REFUTATION of the unguarded "nobody but a transfer's sender is debited" on the live model (same unrepaired
+    defect; real engine: signature c12/third-party-debited/foreign-asset-id): 30 → 8, recorded supply 38 -/
+theorem issue_overwrites_entry_refuted :
+    (runBlocks true St.empty (overwriteWitness.take 2)).equity 5 35 = some (3, 30) ∧
+    (runBlocks true St.empty overwriteWitness).equity 5 35 = some (3, 8) ∧
+    ((runBlocks true St.empty overwriteWitness).assets 3).map (·.supply) = some 38 := by decide
 
 
 end LemoProofs.C12
